@@ -14,6 +14,7 @@ import AferoVerif.Engine.CacheFs
 import AferoVerif.Engine.CopyFault
 import AferoVerif.Engine.Archive
 import AferoVerif.Engine.Sftp
+import AferoVerif.Engine.Gcs
 open AferoVerif
 
 partial def loop {σ : Type} (h : IO.FS.Stream) (out : IO.FS.Stream) (step : σ → String → σ × String) (s : σ) : IO Unit := do
@@ -40,4 +41,5 @@ def main (args : List String) : IO UInt32 := do
   | ["copyfault"] => loop stdin stdout Engine.CopyFault.stepLine (); return 0
   | ["archive"] => loop stdin stdout Engine.Archive.stepLine Engine.Archive.init; return 0
   | ["sftp"] => loop stdin stdout Engine.Sftp.stepLine Engine.Sftp.init; return 0
+  | ["gcs"] => loop stdin stdout Engine.Gcs.stepLine {}; return 0
   | _ => IO.eprintln "usage: driver <engine>"; return 2
